@@ -130,6 +130,7 @@ class Model:
         self.assembled_merges: List[List[str]] = []
         self.stale_reasons: set = set()
         self.pending: Dict[Tuple[str, int], List[float]] = {}
+        self.uncertain: set = set()  # deleted operations whose block was moved and back-ported (their own points: not stated)
 
     @property
     def stale(self) -> bool:
@@ -204,7 +205,9 @@ class Model:
                 k += 1
         return out
 
-    def fresh_program(self) -> Dict[str, Any]:
+    def fresh_program(self, side: bool = False) -> Dict[str, Any]:
+        """the model as it stands, built once; side=True: only the entities and the geometry (what a
+        second Mesh object gets when the same entities are added to it and nothing else is declared)"""
         ops: List[Dict[str, Any]] = []
         for n in self.added:
             if n in self.shapes:
@@ -222,6 +225,9 @@ class Model:
         ops += [dict(g) for g in self.geometry]
         for n in self.added:
             ops.append({"op": "add", "target": n})
+        if side:
+            ops.append({"op": "write", "path": DICT})
+            return {"ops": ops}
         for n in self.deleted:
             ops.append({"op": "delete", "target": n})
         for (n, j) in self.deleted_sub:
@@ -324,6 +330,8 @@ class Model:
                 self.crashed_backport = True
             else:
                 ann["phase"] = 2
+                if self.pending:
+                    self.uncertain.update(n for n in self.deleted if n in self.assembled_ops)
                 self._commit_pending()
                 self.assembled = True
                 self.stale_reasons.add("crash")
@@ -358,12 +366,22 @@ class Model:
                 raise IllFormed("backport")
             self.crashed_backport = False
             had_block = list(self.assembled_ops)
+            if self.pending:
+                self.uncertain.update(n for n in self.deleted if n in had_block)
             self._commit_pending()
             self._clear()
             self._assemble()
             ann["expect_points"] = {n: [list(p) for p in pts] for n, pts in self.pos.items()}
             ann["deleted"] = list(self.deleted)
             ann["had_block"] = had_block
+        elif op == "side_write":
+            # the same entities, as they stand, are added to a second Mesh object (nothing else is declared
+            # there) and written: what the first Mesh did to itself (delete, merge, patch changes) stays there
+            if self.pending or not self.added or self.uncertain:
+                raise IllFormed("side_write")
+            ann["expect"] = self.fresh_program(side=True)
+            ann["added"] = list(self.added)
+            ann["geometry"] = [dict(g) for g in self.geometry]
         elif op == "write_transient":
             # a write while vertices are displaced: what it produces is not stated, only that it
             # must not damage anything - it may fail in grading; the next checked write tells
@@ -532,6 +550,8 @@ def gen_history(seed: int, faults: str) -> Dict[str, Any]:
             if p_fault:
                 cand.append(("crash_in_backport", 6 * p_fault))
         cand.append(("clear", 2))
+        if m.added and not m.pending and not m.uncertain and not getattr(m, "crashed_backport", False):
+            cand.append(("side_write", 1.2))
         if m.used_patch_names():
             cand.append(("modify_patch", 2))
         cand.append(("default_patch", 1))
@@ -588,6 +608,8 @@ def gen_history(seed: int, faults: str) -> Dict[str, Any]:
                 do({"op": "clear"})
         elif kind == "clear":
             do({"op": "clear"})
+        elif kind == "side_write":
+            do({"op": "side_write"})
         elif kind == "modify_patch":
             st = {"op": "modify_patch", "name": rs.pick(m.used_patch_names()), "kind": rs.pick(KINDS), "settings": None}
             if rs.chance(0.5):
@@ -815,6 +837,32 @@ def run_history(hist: Dict[str, Any]) -> Dict[str, Any]:
                     stats["moves"] += 1
                     stats["shape_moves"] = stats.get("shape_moves", 0) + 1
                     prev = op
+                    continue
+                if op == "side_write":
+                    exp_outcome, exp_text = run_fresh_cached(ann["expect"])
+                    side = it.cb.Mesh()
+                    msg = ""
+                    try:
+                        for g in ann["geometry"]:
+                            side.add_geometry({g["name"]: list(g["props"])})
+                        for n in ann["added"]:
+                            side.add(it.env[n])
+                        side.write(DICT + ".side")
+                        outcome = "ok"
+                    except Exception as e:
+                        outcome = "exc:" + type(e).__name__
+                        msg = str(e)[:160]
+                    stats["side_writes"] = stats.get("side_writes", 0) + 1
+                    if outcome != exp_outcome:
+                        bad("side-mesh-outcome-differs", f"the same entities in a second Mesh object: write ended {outcome} {msg}; a fresh build ends {exp_outcome}", i=i)
+                    elif outcome == "ok":
+                        try:
+                            d = diff_canonical(canonical(world.fs.files.get(DICT + ".side")), canonical(exp_text))
+                        except foam.FoamSyntaxError as e:
+                            d = "unparsable: " + repr(e)
+                        if d is not None:
+                            bad("side-mesh-differs", "the same entities in a second Mesh object (nothing deleted or declared there): " + d,
+                                key="side-mesh-differs:" + d.split(":")[0].split("[")[0], i=i)
                     continue
                 if op == "write":
                     fault = st.get("fault")
